@@ -1,0 +1,28 @@
+//go:build verif
+
+package encoder
+
+import "io"
+
+// Verification hooks (build tag "verif" only): expose unexported cores so that an external
+// harness can drive them with arbitrary operation sequences. No production code calls these.
+
+const VerifDefaultWriteBufferSize = defaultWriteBufferSize
+
+// VerifLRU wraps the unexported lru.
+type VerifLRU struct{ l *lru }
+
+func VerifNewLRU(size byte) *VerifLRU            { return &VerifLRU{newLRU(size)} }
+func (v *VerifLRU) Reset()                       { v.l.Reset() }
+func (v *VerifLRU) ResetWithNewSize(size byte)   { v.l.ResetWithNewSize(size) }
+func (v *VerifLRU) Put(item []byte) (byte, bool) { return v.l.Put(item) }
+func (v *VerifLRU) Snapshot() ([][]byte, []byte) {
+	items := make([][]byte, len(v.l.items))
+	for i := range v.l.items {
+		items[i] = append([]byte(nil), v.l.items[i]...)
+	}
+	return items, append([]byte(nil), v.l.bucket...)
+}
+
+// VerifNewWriteBuffer exposes newWriteBuffer.
+func VerifNewWriteBuffer(w io.Writer, size int) io.Writer { return newWriteBuffer(w, size) }
